@@ -175,9 +175,12 @@ def rule_c(ctx, ix):
            detail='the chunk loop stores `%s`: the statistic of a chunk lands at another position of the result' % norm(stores[0]),
            where=where(f, stores[0]))
     ai = [st for st in walk_no_nested(f.node) if isinstance(st, ast.Assign) and unparse(st.targets[0]) == 'axis_index']
-    ok = len(ai) == 1 and unparse(ai[0].value).replace(' ', '') == '[aforainrange(self.ndim)ifanotinaxis][0]'
-    ctx.ob(R, f.construct + ' axis_index', 'axis_index is the one axis that is not reduced', ok,
-           detail='axis_index is computed as %s' % (unparse(ai[0].value) if ai else None), where=f.where)
+    txt = unparse(ai[0].value).replace(' ', '') if len(ai) == 1 else ''
+    ctx.idiom(R, f.construct + ' axis_index', 'axis_index is the one axis that is not reduced',
+              accepted=txt in ('[aforainrange(self.ndim)ifanotinaxis][0]', 'next(aforainrange(self.ndim)ifanotinaxis)'),
+              absent=len(ai) != 1 or ('notinaxis' not in txt),
+              detail_absent='axis_index is computed as %s: it no longer picks the axis that is not in `axis`' % (txt or None),
+              shape=txt, where=f.where)
     res = [st for st in walk_no_nested(f.node) if isinstance(st, ast.Assign) and unparse(st.targets[0]) == unparse(stores[0].targets[0].value)
            and st.lineno < lp.lineno]
     res.sort(key=lambda st: -st.lineno)
